@@ -242,7 +242,10 @@ def range_texts(a_txt, b_txt):
 def duration_forms(n, u, words=True, digits=True):
     out = []
     D = {"n": n, "u": u}
+    homograph = set(LEX["named_hour_suffix"]) | {f for fs in LEX["pod"].values() for f in fs}
     for uw in LEX["unit"][u]:
+        if uw in homograph:
+            continue     # "8 h" is also 8 o'clock, "2 night" is also 2 at night: homographs of the lexicon
         if digits:
             out.append(("dur:digits", "%d %s" % (n, uw), D))
             out.append(("dur:digits-nospace", "%d%s" % (n, uw), D))
